@@ -436,3 +436,123 @@ Proof. intros H. unfold pkg_to_node, node_to_pkg; cbn [n_hashes sp_checksums]. a
 Theorem spdx_file_hashes n : spdx_hash_class (n_hashes n) ->
   n_hashes (file_to_node (node_to_file n)) = n_hashes n.
 Proof. intros H. unfold file_to_node, node_to_file; cbn [n_hashes sf_checksums]. apply spdx_hashes_roundtrip. exact H. Qed.
+
+(* ---- per package: external references and identifiers survive the round trip (C01) ---------------- *)
+Definition spdx_extref_class (x : extref) : Prop :=
+  x_url x <> "" /\ x_authority x = "" /\ x_hashes x = [] /\ spdx_extref_rt (x_type x) = x_type x /\ 0 <= x_type x.
+
+Definition ident_kind_ok (k : Z) : bool :=
+  let '(ty, isid, bad) := extref_enum (zlook ident_to_spdx2_category_tab ident_to_spdx2_category_default k)
+                                      (zlook ident_to_spdx2_type_tab ident_to_spdx2_type_default k) in
+  (isid && negb bad && Z.eqb (slook spdx_ident_type_tab 0 (zlook ident_to_spdx2_type_tab ident_to_spdx2_type_default k)) k
+   && negb (Z.eqb k 0))%bool.
+
+Definition spdx_ident_class (ids_ : list (Z * string)) : Prop :=
+  ksorted ids_ /\ forall kv, In kv ids_ -> ident_kind_ok (fst kv) = true.
+
+Lemma four_identifier_kinds : forallb ident_kind_ok
+  [SoftwareIdentifierType_PURL; SoftwareIdentifierType_CPE22; SoftwareIdentifierType_CPE23; SoftwareIdentifierType_GITOID] = true.
+Proof. vm_compute. reflexivity. Qed.
+
+Section PkgRefs.
+  Variable parse_time : string -> option ts.
+  Variable fmt_time : ts -> string.
+
+  Let xr_of_extref (x : extref) : sref :=
+    {| xr_category := zlook extref_to_spdx_cat_tab extref_to_spdx_cat_default (x_type x);
+       xr_type := zlook extref_to_spdx_type_tab extref_to_spdx_type_default (x_type x);
+       xr_locator := x_url x; xr_comment := x_comment x |}.
+  Let xr_of_ident (kv : Z * string) : sref :=
+    {| xr_category := zlook ident_to_spdx2_category_tab ident_to_spdx2_category_default (fst kv);
+       xr_type := zlook ident_to_spdx2_type_tab ident_to_spdx2_type_default (fst kv);
+       xr_locator := snd kv; xr_comment := "" |}.
+
+  Lemma pkg_extrefs_shape n : Forall spdx_extref_class (n_external_references n) ->
+    sp_extrefs (node_to_pkg fmt_time n) = map xr_of_extref (n_external_references n) ++ map xr_of_ident (n_identifiers n).
+  Proof.
+    intros H. cbn [node_to_pkg sp_extrefs]. f_equal.
+    induction (n_external_references n) as [|x r IH]; [reflexivity|]. inversion H as [|? ? Hx Hr]; subst.
+    cbn [flat_map map]. destruct Hx as [Hu _]. apply String.eqb_neq in Hu. rewrite Hu. cbn [app]. f_equal. exact (IH Hr).
+  Qed.
+
+  Lemma enum_of_extref x : spdx_extref_class x ->
+    exists isid bad, extref_enum (xr_category (xr_of_extref x)) (xr_type (xr_of_extref x)) = (x_type x, isid, bad) /\ (bad || isid)%bool = false.
+  Proof.
+    intros [_ [_ [_ [Hrt Hpos]]]]. unfold spdx_extref_rt in Hrt. cbn [xr_of_extref xr_category xr_type].
+    destruct (extref_enum _ _) as [[ty isid] bad]. destruct (isid || bad)%bool eqn:E; [lia|].
+    exists isid, bad. subst ty. split; [reflexivity|]. rewrite orb_comm. exact E.
+  Qed.
+
+  Lemma enum_of_ident kv : ident_kind_ok (fst kv) = true ->
+    exists ty, extref_enum (xr_category (xr_of_ident kv)) (xr_type (xr_of_ident kv)) = (ty, true, false) /\
+               slook spdx_ident_type_tab 0 (xr_type (xr_of_ident kv)) = fst kv /\ fst kv <> 0.
+  Proof.
+    unfold ident_kind_ok. cbn [xr_of_ident xr_category xr_type]. destruct (extref_enum _ _) as [[ty isid] bad].
+    intros H. apply andb_true_iff in H as [H H4]. apply andb_true_iff in H as [H H3]. apply andb_true_iff in H as [H1 H2].
+    apply negb_true_iff in H2. apply Z.eqb_eq in H3. apply negb_true_iff, Z.eqb_neq in H4. subst. exists ty. auto.
+  Qed.
+
+  Theorem spdx_package_external_references n :
+    Forall spdx_extref_class (n_external_references n) -> spdx_ident_class (n_identifiers n) ->
+    n_external_references (pkg_to_node parse_time (node_to_pkg fmt_time n)) = n_external_references n.
+  Proof.
+    intros Hx [_ Hi]. unfold pkg_to_node. cbn [n_external_references]. rewrite (pkg_extrefs_shape n Hx).
+    rewrite map_app, flat_map_app.
+    assert (E1 : flat_map (fun rt : sref * (Z * bool * bool) => let '(r, (ty, isid, bad)) := rt in
+                             if (bad || isid)%bool then []
+                             else [ {| x_url := xr_locator r; x_comment := xr_comment r; x_authority := ""; x_hashes := []; x_type := ty |} ])
+                          (map (fun r => (r, extref_enum (xr_category r) (xr_type r))) (map xr_of_extref (n_external_references n)))
+                 = n_external_references n).
+    { induction (n_external_references n) as [|x r IH]; [reflexivity|]. inversion Hx as [|? ? Hc Hr]; subst.
+      cbn [map flat_map]. destruct (enum_of_extref x Hc) as [isid [bad [E Eb]]]. rewrite E, Eb. cbn [app]. rewrite (IH Hr).
+      destruct Hc as [_ [Ha [Hh _]]]. destruct x as [u c a hs t]. cbn in *. subst. reflexivity. }
+    assert (E2 : flat_map (fun rt : sref * (Z * bool * bool) => let '(r, (ty, isid, bad)) := rt in
+                             if (bad || isid)%bool then []
+                             else [ {| x_url := xr_locator r; x_comment := xr_comment r; x_authority := ""; x_hashes := []; x_type := ty |} ])
+                          (map (fun r => (r, extref_enum (xr_category r) (xr_type r))) (map xr_of_ident (n_identifiers n)))
+                 = []).
+    { induction (n_identifiers n) as [|kv r IH]; [reflexivity|]. cbn [map flat_map].
+      destruct (enum_of_ident kv (Hi kv (or_introl eq_refl))) as [ty [E _]]. rewrite E. cbn [orb app].
+      apply IH. intros kv' H. apply Hi. right. exact H. }
+    rewrite E1, E2, app_nil_r. reflexivity.
+  Qed.
+
+  Theorem spdx_package_identifiers n :
+    Forall spdx_extref_class (n_external_references n) -> spdx_ident_class (n_identifiers n) ->
+    n_identifiers (pkg_to_node parse_time (node_to_pkg fmt_time n)) = n_identifiers n.
+  Proof.
+    intros Hx [Hs Hi]. unfold pkg_to_node. cbn [n_identifiers]. rewrite (pkg_extrefs_shape n Hx).
+    rewrite map_app, fold_left_app.
+    set (step := fun (acc : list (Z * string)) (rt : sref * (Z * bool * bool)) =>
+                   let '(r, (ty, isid, bad)) := rt in
+                   if (negb bad && isid)%bool then
+                     let it := slook spdx_ident_type_tab 0 (xr_type r) in
+                     if Z.eqb it 0 then acc else (it, xr_locator r) :: filter (fun kv => negb (Z.eqb (fst kv) it)) acc
+                   else acc).
+    assert (E1 : forall acc, fold_left step (map (fun r => (r, extref_enum (xr_category r) (xr_type r))) (map xr_of_extref (n_external_references n))) acc = acc).
+    { induction (n_external_references n) as [|x r IH]; intros acc; [reflexivity|]. inversion Hx as [|? ? Hc Hr]; subst.
+      cbn [map fold_left]. destruct (enum_of_extref x Hc) as [isid [bad [E Eb]]]. unfold step at 2. rewrite E.
+      apply orb_false_iff in Eb as [-> ->]. cbn [negb andb]. exact (IH Hr acc). }
+    rewrite E1.
+    assert (E2 : forall ids_ acc, (forall kv, In kv ids_ -> ident_kind_ok (fst kv) = true) -> NoDup (map fst (acc ++ ids_)) ->
+              fold_left step (map (fun r => (r, extref_enum (xr_category r) (xr_type r))) (map xr_of_ident ids_)) acc = rev ids_ ++ acc).
+    { induction ids_ as [|[k v] r IH]; intros acc Hk Hn; [reflexivity|]. cbn [map fold_left].
+      destruct (enum_of_ident (k, v) (Hk (k, v) (or_introl eq_refl))) as [ty [E [Ek Hne]]]. cbn [fst] in *.
+      unfold step at 2. rewrite E. cbn [negb andb]. rewrite Ek. apply Z.eqb_neq in Hne. rewrite Hne.
+      cbn [xr_of_ident xr_locator snd].
+      rewrite map_app in Hn. cbn [map fst] in Hn.
+      assert (Hna : ~ In k (map fst acc)).
+      { intros H. apply NoDup_app_inv in Hn as [_ [_ Hd]]. apply (Hd k H). left. reflexivity. }
+      assert (Hf : filter (fun kv : Z * string => negb (Z.eqb (fst kv) k)) acc = acc).
+      { apply filter_all_true. intros kv Hkv. apply negb_true_iff, Z.eqb_neq. intros Eq. apply Hna. apply in_map_iff. exists kv. auto. }
+      rewrite Hf, IH.
+      - cbn [rev]. rewrite <- app_assoc. reflexivity.
+      - intros kv H. apply Hk. right. exact H.
+      - cbn [app map fst]. apply NoDup_app_inv in Hn as [Hn1 [Hn2 Hd]]. inversion Hn2 as [|? ? Hnr Hn2']; subst.
+        constructor.
+        + rewrite map_app. intros H. apply in_app_or in H as [H|H]; [exact (Hna H)|exact (Hnr H)].
+        + rewrite map_app. apply NoDup_app_intro; [exact Hn1|exact Hn2'|]. intros y Hy1 Hy2. apply (Hd y Hy1). right. exact Hy2. }
+    rewrite (E2 (n_identifiers n) [] Hi); [|cbn; apply ksorted_NoDup; exact Hs].
+    rewrite app_nil_r. apply kvsort_unique; [exact Hs|apply Permutation_sym, Permutation_rev].
+  Qed.
+End PkgRefs.
